@@ -53,6 +53,9 @@ pub fn rustc_gen_opts() -> GenOpts {
     // parity-scale-codec implements neither Encode nor Decode for `char`: such registries cannot be
     // compiled with codec derives whatever the generator emits
     o.chars = false;
+    // a generated `DecodedBits<_0, _1>` compiles only if the user's bit sequence type has impls
+    // without `BitStore`/`BitOrder` bounds; neither subxt's nor the support crate's has
+    o.bit_params = false;
     o
 }
 
@@ -390,7 +393,9 @@ fn write_crate(dir: &Path, cases: &[&ProbeCase]) -> std::io::Result<()> {
         }
         main.push_str(" }\n}\n");
     }
-    main.push_str("fn main() { let mut bad = 0u32;\n");
+    // big arrays of big items live on the stack of an unoptimised build: give it room
+    main.push_str("fn main() { std::thread::Builder::new().stack_size(4usize << 30).spawn(real_main).unwrap().join().unwrap(); }\n");
+    main.push_str("fn real_main() { let mut bad = 0u32;\n");
     for c in cases {
         let _ = writeln!(main, " {}::run(&mut bad);", c.name);
     }
@@ -486,7 +491,15 @@ pub fn run_batch(tag: &str, cases: &[ProbeCase], run: bool) -> Result<u64, Failu
     if run {
         let (ok, out) = cargo(&dir, &["run", "--offline", "-q"]);
         if !ok || !out.contains("DONE bad=0") {
-            let fail_line = out.lines().find(|l| l.starts_with("FAIL")).unwrap_or("probe binary failed").to_string();
+            let Some(fail_line) = out.lines().find(|l| l.starts_with("FAIL")).map(|l| l.to_string()) else {
+                // the binary died without reporting a comparison (stack overflow, OOM, signal): that
+                // is trouble of the probe, never a statement about the generated types
+                let _ = std::fs::remove_dir_all(&dir);
+                return Err(Failure::infra(format!(
+                    "probe binary died without a verdict: {}",
+                    out.chars().take(400).collect::<String>()
+                )));
+            };
             // FAIL <case>:<id> ...
             let case_name = fail_line.split_whitespace().nth(1).and_then(|s| s.split(':').next()).unwrap_or("");
             let c = cases.iter().find(|c| c.name == case_name);
@@ -536,8 +549,11 @@ fn passes_has_compact_param(gm: &crate::genmod::GMod) -> bool {
                 let idents = path_idents(&tp.path);
                 let args = last_args(&tp.path).unwrap_or_default();
                 let is_item = tp.path.leading_colon.is_none() && idents.first().map(|s| s == root).unwrap_or(false);
+                // `Compact<_j>` written as a type needs `_j: HasCompact` just like a compact field of another item
+                let is_compact_type = tp.path.leading_colon.is_some() && idents.last().map(|s| s == "Compact").unwrap_or(false);
                 args.iter().enumerate().any(|(j, a)| {
-                    (is_item && req.contains(&(idents.clone(), j)) && tokens_nospace(a) == g) || passes(a, g, root, req)
+                    ((is_compact_type || (is_item && req.contains(&(idents.clone(), j)))) && tokens_nospace(a) == g)
+                        || passes(a, g, root, req)
                 })
             }
             _ => false,
@@ -655,6 +671,12 @@ pub fn make_cases(seed: u64, stream: u64, n: usize, cf_only: bool, encodings: us
         // would need a trait bound on the generated item, which the generator never writes
         if passes_has_compact_param(&o.gm) {
             *counters.entry("excluded_nested_has_compact_bound".into()).or_insert(0) += 1;
+            continue;
+        }
+        // `Vec<Compact<_0>>` beside `#[codec(dumb_trait_bound)]` (which this tier needs for recursive types)
+        // sends rustc's trait solver into E0275; the bound `_0: HasCompact` cannot be written by the generator
+        if crate::genmod::nospace(&o.tokens).contains("Compact<_") {
+            *counters.entry("excluded_compact_type_over_parameter".into()).or_insert(0) += 1;
             continue;
         }
         let settings = spec.build();
